@@ -113,7 +113,7 @@ def rand_leaf(rng, n, w):
     if k < 7:
         return [f"I{rng.below(1 << n)}"]
     if k < 9:
-        return ["D" + ".".join(str(rng.below(n)) for _ in range(rng.range(1, 8)))]
+        return ["D" + ".".join(str(rng.below(n)) for _ in range(rng.range(1, 8) if rng.chance(2, 3) else rng.range(9, 64)))]
     if k < 11:
         return [raw_token(n, w, rng.below(1 << n), rng.below(1 << w) if rng.chance(1, 4) else 0)]
     return [rng.choice(["N", "Z"])]
@@ -178,6 +178,8 @@ def two_step_programs(n, w, small):
         pos = sorted({0, min(w, n) - 1, min(w, n - 1), n - 1})
     last = n - 1
     leaves = ["N", f"L{full}", f"I{alt}", f"D{last}.{last}.0", raw_token(n, w, full ^ alt)]
+    if n > 8:
+        leaves.append("D" + ".".join(str(i) for i in reversed(range(n))))   # the whole enum, descending, one initializer list
     if n % w:
         leaves.append(raw_token(n, w, alt, (1 << w) - 1))   # dirty padding
     un = ["~", "|@", "&@", "^@", "|2", "&2", "^2", "=@"]
